@@ -11,15 +11,15 @@ ENGINE = 'E1'
 TECHNIQUE = 'deviation-bounded exhaustive enumeration of the shot space (all cells within k deviations of a baseline + hand-written everything-on cells) x step ladder, each compared with an independent RK4 integrator with event location (closed-form parabola in a vacuum)'
 RULE = ('shot space: drag model {G7,G1,RA4,custom 3-node,multi-BC} x BC {.223,.05,.9} x mv {2750,1150,4000,600} x sight height {2,0,-1 in} x look {0,20,-30} x '
         'zero {5 MOA,0,3 deg} x relative {0,1 deg} x cant {0,30,90} x atmosphere {ICAO, ICAO 5000 ft, hot/humid, vacuum} x winds {none,cross,head,tail,3 segments out of '
-        'order,60 mph quartering} x range {300 yd, 800 yd}; cells = all with <= k deviations from the baseline (quick k=1, thorough k=2) + 7 everything-on cells; '
+        'order,60 mph quartering,calm then wind,wind-calm-wind} x range {300 yd, 800 yd}; cells = all with <= k deviations from the baseline (quick k=1 plus the interacting pairs cant x relative/zero/look/sight, mv x wind, atmosphere x look/wind, look x wind, drag model x mv; thorough k=2) + 7 everything-on cells; '
         'each cell runs the solver on the ladder h = 0.5,0.25,0.125,0.0625 ft and compares 4 rows x 4 columns on every rung with the reference; '
         'non-trivial = precondition held (no range error, x strictly increasing) and the reference was sharper than the bound')
-ASSUMPTIONS = ['oracle: e_h <= 4 Delta*_h + floor with the ladder-wide first-order scale Delta* (DESIGN C01); floor = 1e-7 ft / 1e-6 fps / 1e-10 s + reference error + 2 % of the largest halving change',
+ASSUMPTIONS = ['wind segment switches may lag by one integration step: floor includes (sensitivity of the reference to the switch position) x one step', 'oracle: e_h <= 4 Delta*_h + floor with the ladder-wide first-order scale Delta* (DESIGN C01); floor = 1e-7 ft / 1e-6 fps / 1e-10 s + reference error + 2 % of the largest halving change',
                'Atmo.get_density_factor_and_mach_for_altitude and TrajectoryCalc.drag_by_mach are used as black-box coefficient functions (their own correctness is C08/C09)',
                'convergence is checked on a 4-rung ladder, not in the limit', 'spin drift excluded (twist 0); it is C05']
 
 DIMS = dict(dm=['G1', 'RA4', 'custom3', 'multi'], bc=[.05, .9], mv=[1150.0, 4000.0, 600.0], sh=[0.0, -1.0], look=[20.0, -30.0], zero=[0.0, 3.0],
-            rel=[1.0], cant=[30.0, 90.0], atmo=['icao5k', 'hot', 'vac'], wind=['cross', 'head', 'tail', 'seg3', 'q60'], R=[2400.0])
+            rel=[1.0], cant=[30.0, 90.0], atmo=['icao5k', 'hot', 'vac'], wind=['cross', 'head', 'tail', 'seg3', 'q60', 'calm_wind', 'wind_calm_wind'], R=[2400.0])
 EVERYTHING = [
     dict(dm='G1', bc=.3, mv=1150.0, look=20.0, cant=30.0, atmo='hot', wind='seg3', zero=3.0, sh=0.0, rel=1.0),
     dict(mv=1150.0, wind='seg3'), dict(mv=1150.0, wind='seg3', dm='G1', look=20.0), dict(mv=1150.0, wind='q60'),
@@ -74,6 +74,18 @@ def ladder(cell):
             ref2 = ode.solve(spec, wspec, atmo_fn, drag_fn, alt0, dists, dt=8e-5)
         except ArithmeticError:
             return {'vac': True, 'obs': 'not moving down-range'}
+    # The solver switches wind segments at the first integration point at or beyond a boundary, i.e. up to one step late. That lag is part of
+    # its first-order discretisation error but, on a ladder of nested lattices, it need not shrink from rung to rung (the same lattice point can
+    # be the first one beyond the boundary on several rungs). Allow it explicitly: sensitivity of each reference value to the switch position
+    # (finite difference over 0.25 ft) x one step of advance.
+    sens = [[0.0] * 4 for _ in range(4)]
+    boundaries = [u for u, _ in ode.segments(wspec) if u < R]
+    if boundaries and spec['atmo'] != 'vac':
+        DELTA = 0.25
+        ref_s = ode.solve(spec, wspec, atmo_fn, drag_fn, alt0, dists, dt=4e-5, boundary_shift=DELTA)
+        for k in range(4):
+            a, b = ode.columns(*ref[k]), ode.columns(*ref_s[k])
+            sens[k] = [abs(x - y) / DELTA for x, y in zip(a, b)]
     out = []
     hs = rungs[:-1]
     worst = 0.0
@@ -89,8 +101,8 @@ def ladder(cell):
                 e = abs(rows[h][k][c] - rc)
                 dstar = cest * h / 2
                 hh = min(max(h, hs[-1]), hs[0])
-                floor = ABS_FLOOR[c] + referr + 0.02 * max(D[hh])
-                if referr > K * dstar + ABS_FLOOR[c] + 0.02 * max(D[hh]) and h == rungs[-1]:
+                floor = ABS_FLOOR[c] + referr + 0.02 * max(D[hh]) + sens[k][c] * (h / 2) * 1.5
+                if referr > K * dstar + floor - referr and h == rungs[-1]:
                     inconclusive = True
                 ratio = (e - floor) / dstar if dstar > 0 else (0.0 if e <= floor else 99.0)
                 worst = max(worst, ratio)
@@ -117,8 +129,15 @@ def deviations(k):
     return out
 
 
+PAIRS_QUICK = [('cant', 'rel'), ('cant', 'zero'), ('look', 'cant'), ('mv', 'wind'), ('atmo', 'look'), ('atmo', 'wind'), ('look', 'wind'), ('dm', 'mv'), ('sh', 'cant')]
+
+
 def plan(tier):
     cells = deviations(1 if tier == 'quick' else 2)
+    if tier == 'quick':   # the two-deviation cells in which two mechanisms of the statement interact directly
+        for a, b in PAIRS_QUICK:
+            for va, vb in itertools.product(DIMS[a], DIMS[b]):
+                cells.append({a: va, b: vb})
     cells += [dict(c) for c in EVERYTHING]
     if tier == 'thorough':
         cells += [dict(c, rungs=[1.0, 0.5, 0.25, 0.125, 0.0625, 0.03125]) for c in deviations(1)[:12]]
